@@ -134,6 +134,8 @@ def build_discipline(t, ctx):
         ctx.probe("factory_class_pickled")
         return d, inputs, f"discipline:factory:{name}/{cache}" + ("" if lin else "/exec-only"), "MDA" in name, cache
 
+    if t.flag(0.2, "wrapper_class"):
+        return build_wrapper(t, ctx)
     kind = t.pick(DISC_KINDS, "disc_kind")
     grammar = t.pick(["JSONGrammar", "SimpleGrammar"], "grammar")
     cache = CACHES[t.weighted([3, 3, 1, 1, 3], "cache")]  # (both MemoryFullCache variants end at a known finding)
@@ -179,6 +181,94 @@ def build_discipline(t, ctx):
         path = str(ctx.scratch / "c20_cache.h5")
         d.set_cache("HDF5Cache", hdf_file_path=path, hdf_node_path="n")
     return d, inputs, f"discipline:{kind}/{grammar}/{cache}", False, cache
+
+
+WRAPPER_KINDS = ["Filtering", "Remapping", "Taylor", "Linear", "WarmStartedChain", "InitializationChain", "ConstraintAggregation", "ScenarioAdapter",
+                 "Oscillator", "ArrayBased"]
+
+
+def _array_f(x):
+    return np.array([x[0] * x[1] + x[2], x[2] ** 2])
+
+
+def _array_df(x):
+    return np.array([[x[1], x[0], 1.0], [0.0, 0.0, 2 * x[2]]])
+
+
+def build_wrapper(t, ctx):
+    """Factory classes that wrap other disciplines or need arguments."""
+    from gemseo import create_discipline
+    from gemseo.core.discipline import Discipline
+    from gemseo.problems.mdo.sellar.sellar_1 import Sellar1
+    from gemseo.problems.mdo.sellar.sellar_2 import Sellar2
+
+    kind = t.pick(WRAPPER_KINDS, "wrapper_kind")
+    iterative = False
+    inputs = []
+    s1_inputs = [{"x_1": array([1.0]), "x_shared": array([2.0, 3.0]), "y_2": array([1.5])}, {"x_1": array([0.5])}, {"y_2": array([4.0]), "gamma": array([0.3])}, {}]
+    if kind == "Filtering":
+        d = create_discipline("FilteringDiscipline", discipline=Sellar1(), input_names=["x_1", "y_2"], keep_in=True)
+        inputs = [{"x_1": array([1.0]), "y_2": array([1.5])}, {"x_1": array([0.5])}, {"y_2": array([4.0])}, {}]
+    elif kind == "Remapping":
+        # (wrapping Sellar1, whose Jacobian holds dia_matrix blocks, RemappingDiscipline.linearize raises TypeError with or
+        # without pickling: an analytic discipline is wrapped half of the time so that Jacobians are compared too)
+        if t.flag(0.5, "remap_sellar"):
+            d = create_discipline("RemappingDiscipline", discipline=Sellar1(), input_mapping={"local": "x_1", "shared": "x_shared", "coupling": "y_2", "g": "gamma"}, output_mapping={"out": "y_1"})
+        else:
+            inner = create_discipline("AnalyticDiscipline", expressions={"y_1": "p**2+2*q-0.2*r*w"})
+            inner.io.input_grammar.defaults.update({"p": array([1.0]), "q": array([0.5]), "r": array([1.0]), "w": array([0.2])})
+            d = create_discipline("RemappingDiscipline", discipline=inner, input_mapping={"local": "p", "shared": "q", "coupling": "r", "g": "w"}, output_mapping={"out": "y_1"})
+            inputs = None
+        if inputs is None:
+            inputs = [{"local": array([1.0]), "shared": array([2.0]), "coupling": array([1.5])}, {"local": array([0.5])}, {"coupling": array([4.0]), "g": array([0.3])}, {}]
+        else:
+            inputs = [{"local": array([1.0]), "shared": array([2.0, 3.0]), "coupling": array([1.5])}, {"local": array([0.5])}, {"coupling": array([4.0]), "g": array([0.3])}, {}]
+    elif kind == "Taylor":
+        d = create_discipline("TaylorDiscipline", discipline=Sellar1(), input_data={"x_1": array([0.5]), "x_shared": array([1.0, 2.0]), "y_2": array([2.0]), "gamma": array([0.2])})
+        inputs = s1_inputs
+    elif kind == "Linear":
+        d = create_discipline("LinearDiscipline", name="L", input_names=["a", "b"], output_names=["c", "d"], inputs_size=2, outputs_size=3,
+                              matrix_format=t.pick(["dense", "csr"], "matrix_format"), matrix_density=0.6)
+        inputs = [{"a": array([1.0, 2.0]), "b": array([0.5, -1.0])}, {"a": array([0.0, 1.0])}, {"b": array([2.0, 2.0])}, {}]
+    elif kind == "WarmStartedChain":
+        d = create_discipline("MDOWarmStartedChain", disciplines=[Sellar1(), Sellar2()], variable_names_to_warm_start=["y_2"])
+        inputs = [{"x_1": array([1.0]), "x_2": array([0.5]), "x_shared": array([2.0, 3.0])}, {"x_1": array([0.5])}, {"x_shared": array([1.0, 1.0])}, {}]
+    elif kind == "InitializationChain":
+        d = create_discipline("MDOInitializationChain", disciplines=[Sellar1(), Sellar2()], available_data_names=["x_1", "x_2", "x_shared", "y_2", "gamma", "beta"])
+        inputs = [{"x_1": array([1.0]), "x_2": array([0.5]), "x_shared": array([2.0, 3.0]), "y_2": array([1.5])}, {"x_1": array([0.5])}, {"y_2": array([4.0])}, {}]
+    elif kind == "ConstraintAggregation":
+        d = create_discipline("ConstraintAggregation", constraint_names=["g1", "g2"], aggregation_function=t.pick(["IKS", "lower_bound_KS", "upper_bound_KS", "POS_SUM", "MAX", "SUM"], "aggregation"))
+        d.io.input_grammar.defaults.update({"g1": array([0.5, -1.0]), "g2": array([0.25])})
+        inputs = [{"g1": array([1.0, 2.0]), "g2": array([0.5])}, {"g1": array([-1.0, 0.5])}, {"g2": array([3.0])}, {}]
+    elif kind == "ScenarioAdapter":
+        from gemseo import create_design_space, create_scenario
+        from gemseo.disciplines.scenario_adapters.mdo_scenario_adapter import MDOScenarioAdapter
+
+        ds = create_design_space()
+        ds.add_variable("x_1", lower_bound=0.0, upper_bound=10.0, value=1.0)
+        sub = create_discipline("AnalyticDiscipline", expressions={"obj": "(x_1-z)**2+z", "c": "x_1-3"})
+        sc = create_scenario([sub], "obj", ds, formulation_name="DisciplinaryOpt", scenario_type="MDO")
+        sc.set_algorithm(algo_name="SLSQP", max_iter=15)
+        d = MDOScenarioAdapter(sc, ["z"], ["obj"], reset_x0_before_opt=t.flag(0.5, "reset_x0"), set_x0_before_opt=False)
+        inputs = [{"z": array([1.0])}, {"z": array([2.5])}, {"z": array([0.5])}, {"z": array([4.0])}]
+        iterative = True
+    elif kind == "Oscillator":
+        d = create_discipline("OscillatorDiscipline", omega=2.0, times=np.linspace(0.0, 1.0, 11))
+        base = {k: np.array(v, dtype=float, copy=True) for k, v in d.io.input_grammar.defaults.items()}
+        first = sorted(base)[0]
+        inputs = [{}, {k: v + 0.25 for k, v in base.items()}, {first: base[first] + 1.0}, {k: v * 1.0 for k, v in base.items()}]
+        iterative = True
+    else:
+        d = create_discipline("ArrayBasedFunctionDiscipline", function=_array_f, jac_function=_array_df, input_names_to_sizes={"p": 2, "q": 1}, output_names_to_sizes={"r": 1, "s": 1})
+        d.io.input_grammar.defaults.update({"p": array([0.5, 1.5]), "q": array([2.0])})
+        inputs = [{"p": array([1.0, 2.0]), "q": array([0.5])}, {"p": array([0.0, 1.0])}, {"q": array([3.0])}, {}]
+    cache = CACHES[t.weighted([3, 3, 0, 0, 0], "cache")]
+    if cache == "none":
+        d.set_cache(Discipline.CacheType.NONE)
+    else:
+        d.set_cache("SimpleCache")
+    ctx.probe("wrapper_class_pickled")
+    return d, inputs, f"discipline:wrapper:{kind}/{cache}", iterative, cache
 
 
 def build_process(t, ctx):
@@ -253,7 +343,7 @@ def in_child(blob, fn):
 
 def child_discipline(req):
     c = pickle.loads(req["blob"])
-    out = [do_op(c, op, req["inputs"]) for op in req["suffix"]]
+    out = [safe_op(c, op, req["inputs"]) for op in req["suffix"]]
     return out, grammar_view(c), c.execution_statistics.n_executions
 
 
@@ -352,6 +442,19 @@ def grammar_view(d):
     }
 
 
+def safe_op(d, op, inputs):
+    """``do_op``; what the object raises is part of its behaviour (some factory classes cannot be linearized at
+    all): original and restored objects must then raise alike."""
+    try:
+        return do_op(d, op, inputs)
+    except RuntimeError as exc:
+        if "Failed to cache dataset" in str(exc):
+            raise
+        return ("raised", {"type": type(exc).__name__})
+    except Exception as exc:  # noqa: BLE001
+        return ("raised", {"type": type(exc).__name__})
+
+
 def do_op(d, op, inputs):
     kind, k = op
     if kind == "make_optional":
@@ -400,7 +503,7 @@ def run_discipline_like(ctx, d, inputs, label, iterative, cache):
     rtol = 1e-6 if iterative else 0.0
     n_pre = t.randint(0, 4, "n_prefix")
     prefix = [(t.pick(["exec", "lin", "exec", "lin", "make_optional", "set_default", "fd_mode"], f"pre_kind[{i}]"), t.choice(len(inputs), f"pre_in[{i}]")) for i in range(n_pre)]
-    if iterative or label.startswith(("process:", "discipline:factory:")):
+    if iterative or label.startswith(("process:", "discipline:factory:", "discipline:wrapper:")):
         prefix = [(("exec" if kd == "fd_mode" else kd), k) for kd, k in prefix]  # (approximation settings: plain disciplines only)
     exec_only = label.endswith("/exec-only")
     if exec_only:
@@ -428,7 +531,7 @@ def run_discipline_like(ctx, d, inputs, label, iterative, cache):
         prefix = [(kd if kd in ("make_optional", "set_default", "fd_mode") else "exec", k) for kd, k in prefix]
         suffix = [("exec", k) for _, k in suffix]
     except Exception as exc:  # noqa: BLE001
-        if not label.startswith("discipline:factory:"):
+        if not label.startswith(("discipline:factory:", "discipline:wrapper:")):
             raise
         # what an original factory discipline does before any pickling is not C20's subject (e.g. DensityFilter
         # cannot store its 10^4 x 10^4 sparse Jacobian in an HDF5 cache): the run ends here
@@ -447,7 +550,7 @@ def run_discipline_like(ctx, d, inputs, label, iterative, cache):
         ctx.violate("C20.picklable", psig, f"pickle.dumps of {label} after prefix {prefix} raised {exc!r}")
     if transport >= 2:
         def child(c):
-            out = [do_op(c, op, inputs) for op in suffix]
+            out = [safe_op(c, op, inputs) for op in suffix]
             return out, grammar_view(c), c.execution_statistics.n_executions
 
         if transport == 2:
@@ -460,7 +563,7 @@ def run_discipline_like(ctx, d, inputs, label, iterative, cache):
             ctx.violate("C20.behaves_like_original", f"{sig} {tname} raised", f"restored {label} raised in the child: {res}; prefix={prefix} suffix={suffix}")
         got, g1, n_exec_child = res
         try:
-            exp = [do_op(d, op, inputs) for op in suffix]
+            exp = [safe_op(d, op, inputs) for op in suffix]
         except RuntimeError as exc:
             if cache == "HDF5Cache" and "Failed to cache dataset" in str(exc):
                 ctx.violate("C20.behaves_like_original", "cache=HDF5Cache original-and-restored-interleaved raised=RuntimeError",
@@ -484,7 +587,7 @@ def run_discipline_like(ctx, d, inputs, label, iterative, cache):
         for op in suffix:
             for side, obj, acc in (("original", d, exp), ("restored", c, got)):
                 try:
-                    acc.append(do_op(obj, op, inputs))
+                    acc.append(safe_op(obj, op, inputs))
                 except RuntimeError as exc:
                     if cache == "HDF5Cache" and "Failed to cache dataset" in str(exc):
                         ctx.violate("C20.behaves_like_original", "cache=HDF5Cache original-and-restored-interleaved raised=RuntimeError",
@@ -497,10 +600,20 @@ def run_discipline_like(ctx, d, inputs, label, iterative, cache):
     for op, (ke, ve), (kg, vg) in zip(suffix, exp, got):
         if ke == "edit":
             continue
+        if "raised" in (ke, kg):
+            if ke != kg or ve != vg:
+                ctx.violate("C20.behaves_like_original", sig + f" {op[0]} raises", f"{op} after prefix {prefix} via {tname}: original -> {ke} {ve if ke == 'raised' else ''}, restored -> {kg} {vg if kg == 'raised' else ''}")
+            ctx.probe("original_and_restored_raise_alike")
+            continue
         diff = same_data(ve, vg, rtol) if ke == "data" else same_jac(ve, vg, rtol)
         if diff:
             ctx.violate("C20.behaves_like_original", sig + f" {op[0]}", f"{op} after prefix {prefix} via {tname}: original and restored differ: {diff}")
     ctx.event("suffix", canon([(k, v if k != "jac" else {o: dict(jo) for o, jo in v.items()}) for k, v in got]))
+    if any(k == "raised" for k, _ in exp):
+        # (after a failure the status of both objects is FAILED: no isolation step)
+        SingleInstancePerFileAttribute.instances.clear()
+        ctx.case((label, canon(prefix), tname, canon(suffix)), nontrivial=bool(prefix))
+        return
     # isolation
     if c is not None:
         n_o = d.execution_statistics.n_executions
